@@ -110,8 +110,12 @@ fn check_stepwise(case: &PlanCase, which: Which, ctx: &mut Ctx) {
         Ok(mut trace) => {
             // stop at the first success: later solve calls continue from a solved tree, which is
             // legitimate but the goal-root / direct-hit reasoning of the oracles assumes one query
-            if let Some(k) = trace.steps.iter().position(|s| matches!(s.res, Res::Path(_))) {
-                trace.steps.truncate(k + 1);
+            // (RRT-Connect only; RRT and RRT* simply keep growing their one tree, and what a
+            // second solve does with the state the first one left behind is part of the property)
+            if case.planner == PlannerTag::RRTConnect {
+                if let Some(k) = trace.steps.iter().position(|s| matches!(s.res, Res::Path(_))) {
+                    trace.steps.truncate(k + 1);
+                }
             }
             common_labels(case, &trace, ctx);
             // RRT-Connect may re-draw its goal root in the first solve: skip that step's
@@ -337,6 +341,77 @@ impl Prop for C16Random {
     }
 }
 
+/// The per-iteration oracles above watch calls of one iteration each. This part carries their
+/// verdict over to calls of many iterations: what an iteration does must not depend on where the
+/// call boundaries fall.
+pub struct C16Chunk;
+impl Prop for C16Chunk {
+    type Case = PlanCase;
+    const ID: &'static str = "C16";
+    const PART: &'static str = "call-boundary-invariance";
+    const RULE: &'static str = "generated planner cases (RRT, RRT-Connect, RRT*; worlds, parameters, seeds): run A = setup + one solve(budget N), N in 2..80, which starts k <= N iterations (hook counter); run B = setup + k x solve(budget 1), whose every iteration is of the kind the transition oracle checks. Final trees (states, parents, costs) and the last result must be identical bit for bit. Non-trivial = k >= 3 and a final tree of >= 4 nodes.";
+    const HANG_IS_VIOLATION: bool = true;
+    fn random_cases(tier: Tier) -> usize {
+        tier.pick(6_000, 40_000)
+    }
+    fn gen(ch: &mut Ch, tier: Tier) -> PlanCase {
+        let big = ch.prob(0.5);
+        let mut c = gen_stepwise(ch, &TREE_PLANNERS, tier, big);
+        let n = ch.int(2, 80) as u64;
+        c.ops = vec![Op::Setup(0), Op::Solve { budget: n }];
+        c.query_cap = usize::MAX;
+        c
+    }
+    fn check(case: &PlanCase, ctx: &mut Ctx) {
+        let pname = planner_name(case.planner);
+        let Ok(ta) = run_case_dyn(case) else {
+            ctx.discard("unbuildable");
+            return;
+        };
+        common_labels(case, &ta, ctx);
+        if ta.steps.iter().any(|s| matches!(s.res, Res::Panic { .. })) {
+            ctx.panicked = true;
+            return;
+        }
+        let k = ta.steps[1].ticks;
+        let mut b = case.clone();
+        b.ops = vec![Op::Setup(0)];
+        // k = 0: the call ended before its first iteration (invalid start, ...): one call again
+        for _ in 0..k.max(1) {
+            b.ops.push(Op::Solve { budget: 1 });
+        }
+        let Ok(tb) = run_case_dyn(&b) else {
+            ctx.discard("unbuildable");
+            return;
+        };
+        if tb.steps.iter().any(|s| matches!(s.res, Res::Panic { .. })) {
+            ctx.panicked = true;
+            return;
+        }
+        let (la, lb) = (ta.steps.last().unwrap(), tb.steps.last().unwrap());
+        if !la.snap.bits_eq(&lb.snap) {
+            ctx.fail(
+                format!("C16:iteration-depends-on-call-boundaries:{pname}:tree"),
+                format!(
+                    "one solve call of {k} iterations leaves a tree of {} nodes, {k} calls of one iteration each (same seed) a tree of {} nodes, or the same number with different states / parents / costs",
+                    la.snap.size(),
+                    lb.snap.size()
+                ),
+            );
+            return;
+        }
+        if !la.res.same(&lb.res) {
+            ctx.fail(
+                format!("C16:iteration-depends-on-call-boundaries:{pname}:result"),
+                format!("one call of {k} iterations returned {}, the last of {k} single-iteration calls {}", la.res.tag(), lb.res.tag()),
+            );
+            return;
+        }
+        ctx.label(format!("result:{}", la.res.tag()));
+        ctx.nontrivial = k >= 3 && la.snap.size() >= 4;
+    }
+}
+
 pub struct C17Random;
 impl Prop for C17Random {
     type Case = PlanCase;
@@ -483,6 +558,8 @@ impl C16GoalBias {
             query_cap: usize::MAX,
             world2: None,
             space2: None,
+            fault_persists: false,
+            raw_space: false,
         };
         let t = run_case_dyn(&pc).ok()?;
         let st = t.steps.last()?;
